@@ -38,6 +38,7 @@ var c07Reqs = []c07Req{
 	{"mutation", `mutation { m1(v:1) { kind nodes(n:2) { kind } } s1(v:2) }`, nil},
 	{"invalid", `{ nope node { zzz } }`, nil},
 	{"scalars", `{ x1 x2 leafy { s i } }`, nil},
+	{"typed-fragment-merge", `{ a { ...P } c { ...P } nodes(n:3) { ...P } } fragment P on Node { peer(as:"B") { id } ... on A { peer(as:"B") { ... on B { bOnly } } } ... on C { peer(as:"B") { name } } }`, nil},
 	{"nested-single-possible", `{ nodes(n:3) { id ... on A { solo { ... on B { bOnly } } } ... on C { solo { ... on B { id kind } } } } c { solo { ... on B { u { ... on A { solo { ... on B { id } } } } } } } }`, nil},
 	// literal variants of one shape: under the normalising cache they share a plan
 	// (same text length: with Normalize on, error locations of a shared plan are
@@ -48,7 +49,7 @@ var c07Reqs = []c07Req{
 }
 
 // index of the first literal variant
-const c07LitBase = 13
+const c07LitBase = 14
 
 type C07Op struct {
 	Kind string `json:"kind"` // do | cache | plan | validate | reset
